@@ -644,3 +644,19 @@ def _run(ctx, q, stage, env, tbl):
             rej = validate_traces(ctx, [b1, b2, good[0]], env)
             ctx.selftest("trace_rejects_corrupted_field", 0 in rej and rej.get(1) == [0] and 2 not in rej)
     ctx.exhaustive = True
+
+
+def replay(ctx, obj):
+    """./check C18 --replay FILE: re-run the recorded call(s) on the current tree and show what happens"""
+    d = obj.get("detail") or {}
+    text = d.get("text")
+    n = d.get("n") or (d.get("event") or {}).get("n") or "BTC"
+    ents = [d["entry"]] if d.get("entry") else ([d["event"]["e"]] if d.get("event") else ["parse"])
+    print("key :", obj.get("key"))
+    print("what:", obj.get("what"))
+    print("structure of the text:", nets.structure_of(text))
+    for e in ents:
+        tag, val = nets.call(nets.entry(nets.net(n), e), text)
+        print("%s.parse%s(%r) -> %s" % (n, "" if e == "parse" else "." + e, text, ("raises " + val) if tag == "exc" else repr(val)))
+        if tag == "exc":
+            ctx.fail(obj["key"], obj.get("what", ""), d)
